@@ -15,6 +15,9 @@ def run(tier, seed):
 
     prove_summaries(rep, tier)
     specs = [("t2.cases", "make_rel", (p.to_json(),)) for p in progs]
+    # arbitrary (also unaligned) start position for flat fixed-size aligned definitions (pointer targets, records mid-file)
+    anyp = sets.flat_aligned(sets.reduced_programs(seed) if tier == "quick" else progs)
+    rep.add_case_results(run_cases([("t2.cases", "make_rel_any", (p.to_json(),)) for p in anyp]), "T2")
     specs += [("contracts.compiler", "make_fallback", (i,)) for i in range(3)]
     res = run_cases(specs)
     rep.add_case_results(res[: len(progs)], "T2")
